@@ -2,6 +2,7 @@ import Capella.Driver.Util
 import Capella.Model.Xml
 import Capella.Model.XmlParse
 import Capella.Model.XmlSpec
+import Capella.Model.XmlEdit
 namespace Capella.Driver.Xml
 open Lean Capella.Driver Capella.Xml
 
@@ -135,6 +136,35 @@ def handle (op : String) (j : Json) : Except String Json := do
     let idem := (serialize ll true [] true (canonDoc d)) == out
     pure (Json.mkObj [("wf", wfDoc d), ("lex", lexOk), ("build", buildOk), ("resolve", resOk),
       ("parse", parseOk), ("canon_same_bytes", idem)])
+  | "xml.save_reload" =>
+    -- C02: what `write_xml` writes for the in-memory document, and the statement of `save_reload`
+    let k ← kindOf (← j.getObjValAs? String "kind")
+    let d ← docOf (← j.getObjVal? "doc")
+    match elemErr [] d.root with
+    | some e => pure (Json.mkObj [("raises", errName e)])
+    | none =>
+      let out := writeXml k d
+      let wf := wfDoc d
+      if wf then
+        let canonOk := match parse out with | some r => Doc.beq r (canonDoc d) | none => false
+        pure (Json.mkObj [("out", jstr out), ("wf", wf), ("reload_is_canon", canonOk),
+          ("info_equal", infoEqB (canonDoc d) d)])
+      else pure (Json.mkObj [("out", jstr out), ("wf", wf)])
+  | "xml.edit" =>
+    let d ← docOf (← j.getObjVal? "doc")
+    let path ← j.getObjValAs? (List Nat) "path"
+    let ed ← match (← j.getObjValAs? String "edit") with
+      | "setAttr" => do pure (Edit.setAttr path (← getStr j "name") (← getStr j "value"))
+      | "delAttr" => do pure (Edit.delAttr path (← getStr j "name"))
+      | "setText" => do pure (Edit.setText path (← optStr (← j.getObjVal? "value")))
+      | "insertKid" => do pure (Edit.insertKid path (← getNat j "index") (← elemOf (← j.getObjVal? "kid")))
+      | "removeKid" => do pure (Edit.removeKid path (← getNat j "index"))
+      | e => throw s!"unknown edit {e}"
+    let d' := ed.apply d
+    let cj (c : Comment) : Json := Json.arr #[jstr c.text, jopt c.tail]
+    pure (Json.mkObj [("doc", Json.mkObj [("pre", Json.arr (d'.pre.map cj).toArray),
+        ("root", elemJson d'.root), ("post", Json.arr (d'.post.map cj).toArray)]),
+      ("wf", wfDoc d')])
   | "xml.unescape" =>
     let s ← getStr j "s"
     let strict ← getBool j "strict"
